@@ -359,6 +359,12 @@ class SMUserList(UserList, ABC):
         # list extension inherited from UserList
         return self.__add__(other)
 
+    def __mul__(self, other):
+        # list repetition (inherited from UserList) is not an operation of
+        # these classes: those that have a product define it themselves, for
+        # the others ``x * 2`` held x twice and ``x * 0`` or ``x * 2.5`` raised
+        raise TypeError("* is not defined for " + type(self).__name__ + " on the left")
+
     def __imul__(self, other):
         # ``x *= y`` is ``x = x * y`` as defined by the class, not the
         # list repetition inherited from UserList
